@@ -45,11 +45,11 @@ inductive Tok where
   | fail (v : Verdict)
   | bad
 
-def parseOp (regs : List (String × RegTy)) (t : String) : Tok :=
+def parseOp (regs : List RegD) (t : String) : Tok :=
   if t.startsWith "r:" then
     let n := (t.drop 2).toString
-    match regs.find? (fun r => r.1 == n) with
-    | some r => .op (.reg (.decl r.2))
+    match regs.find? (fun r => r.name == n.toList) with
+    | some r => .op (.reg (.decl r.ty))
     | none => .fail (.err E_undeclared_func_reg)
   else match t with
   | "r.i" => .op (.reg (.decl .i64)) | "r.f" => .op (.reg (.decl .f)) | "r.d" => .op (.reg (.decl .d))
@@ -79,7 +79,8 @@ def regTyOfArg (t : Ty) : RegTy :=
 structure St where
   protos : List Proto := []
   fn : Option Func := none
-  regs : List (String × RegTy) := []     -- declared names with types
+  regs : List RegD := []                 -- registers declared in the current function
+  gregs : List Nat := []                 -- register numbers returned by the G directives
   insns : List Insn := []
   nR : Nat := 0
   nI : Nat := 0
@@ -94,6 +95,18 @@ def natPairs : List Nat → List (Ty × Nat)
 def strPairs : List String → List (Ty × String)
   | t :: n :: r => (Ty.ofCode (t.toNat?.getD 0), n) :: strPairs r
   | _ => []
+
+def argRegs : Nat → List (Ty × String) → List RegD
+  | _, [] => []
+  | i, a :: as => ⟨a.2.toList, regTyOfArg a.1, i, none⟩ :: argRegs (i + 1) as
+
+def declStd (regs : List RegD) : List (String × RegTy) → Verdict × List RegD
+  | [] => (.ok, regs)
+  | (n, t) :: r =>
+    let d := declRegD regs t.ty n.toList none
+    match d.v with
+    | .ok => declStd d.ds r
+    | v => (v, regs)
 
 def natsOf (ts : List String) : Option (List Nat) := ts.mapM (·.toNat?)
 
@@ -114,9 +127,19 @@ partial def runCase (asserts : Sem) (st : St) (ts : List String) : String :=
     | none => "bad nofunc"
     | some fn =>
       match asserts.finish st.protos fn st.insns.reverse with
-      | .ok => "ok"
+      | .ok =>
+        if st.gregs.isEmpty then "ok"
+        else "ok g=" ++ ",".intercalate (st.gregs.map toString)
       | .err e => s!"err {e} finish"
       | .crash => "crash finish"
+  | "Z" :: rest =>
+    (match st.fn with
+     | none => "bad nofunc"
+     | some fn =>
+       match asserts.finish st.protos fn st.insns.reverse with
+       | .ok => runCase asserts { st with fn := none, regs := [], insns := [], nR := 0, nI := 0 } rest
+       | .err e => s!"err {e} finish"
+       | .crash => "crash finish")
   | "P" :: va :: nres :: rest =>
     (match va.toNat?, nres.toNat? with
      | some va, some nres =>
@@ -154,17 +177,11 @@ partial def runCase (asserts : Sem) (st : St) (ts : List String) : String :=
                   let names := args.map (fun a => a.2.toList)
                   (match newFuncCheck (va != 0) res names with
                    | .ok =>
-                     let regs0 := args.map (fun a => (a.2, regTyOfArg a.1))
+                     let regs0 : List RegD := argRegs 1 args
                      let std : List (String × RegTy) :=
                        if f == "F!" then [] else [("ri", .i64), ("rf", .f), ("rd", .d), ("rl", .ld)]
                      -- the standard registers go through MIR_new_func_reg too
-                     let rec decl (regs : List (String × RegTy)) : List (String × RegTy) → Verdict × List (String × RegTy)
-                       | [] => (.ok, regs)
-                       | (n, t) :: r =>
-                         match declReg (regs.map (fun x => x.1.toList)) t.ty n.toList with
-                         | .ok => decl (regs ++ [(n, t)]) r
-                         | v => (v, regs)
-                     (match decl regs0 std with
+                     (match declStd regs0 std with
                       | (.ok, regs) => runCase asserts { st with fn := some ⟨va != 0, res⟩, regs := regs } rest3
                       | (.err e, _) => s!"err {e} F"
                       | (.crash, _) => "crash F")
@@ -178,15 +195,26 @@ partial def runCase (asserts : Sem) (st : St) (ts : List String) : String :=
       -- R <type> <name>
       (match va.toNat? with
        | some t =>
-         let name := nres
          let k := st.nR
-         (match declReg (st.regs.map (fun x => x.1.toList)) (Ty.ofCode t) name.toList with
-          | .ok =>
-            let rt := (regTyOfCode (Ty.ofCode t)).getD .i64
-            runCase asserts { st with regs := st.regs ++ [(name, rt)], nR := k + 1 } rest
+         let r := declRegD st.regs (Ty.ofCode t) nres.toList none
+         (match r.v with
+          | .ok => runCase asserts { st with regs := r.ds, nR := k + 1 } rest
           | .err e => s!"err {e} R{k}"
           | .crash => s!"crash R{k}")
        | none => "bad reg")
+    else if f == "G" then
+      -- G <type> <name> <hard reg name or ->
+      (match va.toNat?, rest with
+       | some t, hard :: rest2 =>
+         let k := st.nR
+         if hard == "-" then s!"err {E_hard_reg} R{k}"
+         else
+           let r := declRegD st.regs (Ty.ofCode t) nres.toList (some hard.toList)
+           (match r.v with
+            | .ok => runCase asserts { st with regs := r.ds, gregs := st.gregs ++ [r.reg], nR := k + 1 } rest2
+            | .err e => s!"err {e} R{k}"
+            | .crash => s!"crash R{k}")
+       | _, _ => "bad global reg")
     else if f == "I" then
       (match va.toNat?, nres.toNat? with
        | some code, some nops =>
